@@ -285,14 +285,13 @@ theorem cutIn_symm (g : Cfg) (i : Nat) (h : Symm g) : Symm (g.cutIn i) :=
 theorem deadStep_symm (g : Cfg) (i : Nat) (h : Symm g) : Symm (deadStep g i) := by
   unfold deadStep
   simp only []
-  by_cases hc : ((g.get i).node.isReturn || (g.get i).node.isIndirectJump || (g.get i).node.isAnyEntry ||
-      (g.get i).node.mightTerminate) = true
+  by_cases hc : ((g.get i).node.isReturn || (g.get i).node.isIndirectJump || (g.get i).node.isAnyEntry) = true
   · rw [if_pos hc]; exact h
   · rw [if_neg hc]
-    generalize hg1 : (if (g.get i).nexts.isEmpty = true then g.cutIn i else g) = g1
+    generalize hg1 : (if ((g.get i).nexts.isEmpty && !(g.get i).node.mightTerminate) = true then g.cutIn i else g) = g1
     have h1 : Symm g1 := by
       subst hg1
-      by_cases he : (g.get i).nexts.isEmpty = true
+      by_cases he : ((g.get i).nexts.isEmpty && !(g.get i).node.mightTerminate) = true
       · rw [if_pos he]; exact cutIn_symm g i h
       · rw [if_neg he]; exact h
     by_cases hp : (g1.get i).prevs.isEmpty = true
@@ -306,8 +305,21 @@ theorem foldl_symm (f : Cfg → Nat → Cfg) (hf : ∀ g i, Symm g → Symm (f g
   | cons x xs ih => exact ih _ (hf g x h)
 
 /-- **C03.** Dead-code pruning keeps the successor and predecessor relations exact inverses. -/
-theorem deadCode_symm (g : Cfg) (h : Symm g) : Symm (deadCode g) :=
+theorem deadSweep_symm (g : Cfg) (h : Symm g) : Symm (deadSweep g) :=
   foldl_symm deadStep deadStep_symm _ g h
+
+theorem deadLoop_symm (fuel : Nat) : ∀ g, Symm g → Symm (deadLoop fuel g) := by
+  induction fuel with
+  | zero => intro g h; exact h
+  | succ n ih =>
+    intro g h
+    unfold deadLoop
+    simp only []
+    split
+    · exact deadSweep_symm g h
+    · exact ih _ (deadSweep_symm g h)
+
+theorem deadCode_symm (g : Cfg) (h : Symm g) : Symm (deadCode g) := deadLoop_symm _ g h
 
 theorem ecallStep_symm (g : Cfg) (i : Nat) (h : Symm g) : Symm (ecallStep g i) := by
   unfold ecallStep; split
